@@ -1,0 +1,20 @@
+// This Source Code Form is subject to the terms of the Mozilla Public
+// License, v. 2.0. If a copy of the MPL was not distributed with this
+// file, You can obtain one at http://mozilla.org/MPL/2.0/.
+
+//go:build verif
+
+package destroy
+
+// Contracts for the deductive verifier in /verif (govc). Comment-only file: it
+// adds no code. Lines starting with //@ are parsed by govc; see /verif/DESIGN.md.
+
+// C07: the destroy controller removes a resource only when it is tearing down, unowned and free
+// of finalizers.
+//@ func (*Controller).Reconcile
+//@   props C07
+//@   requires [wired] ctrl != nil && r != nil && logger != nil
+//@   at Destroy #1
+//@     assert [destroyed-only-when-tearing-down] in != nil && mdOf(in).phase == 1
+//@     assert [destroyed-only-without-finalizers] len(mdOf(in).fins) == 0
+//@     assert [destroyed-only-when-unowned] mdOf(in).owner == ""
